@@ -13,7 +13,7 @@ impl Query for Selector {
             Selector::Slice(start, end, sl_step) => {
                 step.flat_map(|d| process_slice(d, start, end, sl_step))
             }
-            Selector::Filter(f) => f.process(step),
+            Selector::Filter(f) => f.select(step),
         }
     }
 }
